@@ -46,8 +46,18 @@ def register(vc):
         "C16": "the batch requests of the C15 generator (0-4 operations, duplicates, keyed and un-keyed operations mixed, failing and "
                "succeeding ones mixed); service replies are delayed by rank so that the operations complete in a chosen permutation; "
                "every operation is also sent alone. Non-trivial = two or more operations.",
+        "C12": "fixed histories first (a rejected query sent with a hash and then the hash again; idle longer than the TTL; "
+               "sha256-keyed lookups), then PRNG(seed)-generated histories of 2-9 events over {query only, query+hash, hash only, "
+               "hash = sha256 of a text, unknown hash, neither, idle > 3 TTL} on four texts (one rejected by the planner), every hash "
+               "always paired with the same text, each run on its own AutomaticQueryPlanCache (TTL 120 ms) through Retrieve with a "
+               "planner that tags its plans with the text; plus 48 concurrent bursts (2-8 simultaneous first lookups of one key, "
+               "some hash-only, then the entry used every 0.36 TTL for 3 TTLs: it must stay cached whichever sweepers the burst "
+               "started). Non-trivial = three or more events, or a burst.",
     })
     vc.ASSUMPTIONS.update({
+        "C12": ["planner and sha256 are parameters of the theorems (sha256 hex is never empty); the correspondence uses the real sha256",
+                "real time enters only through: requests of a burst are much closer than the TTL; an idle period is longer than 3 TTLs",
+                "sync.Map Load / LoadOrStore / Store are atomic (the concurrent theorem interleaves exactly these steps); the timer goroutine is modelled as a sweep that may run at any time"],
         "C15": ["bytes -> JSON value is encoding/json's (inputs are JSON values; raw byte bodies enter the model as 'not valid JSON'); multipart layouts are covered by C18",
                 "JSON object keys are matched exactly (encoding/json also accepts other letter cases; not generated)",
                 "what planning and execution of one operation yield is an input of the handler model, observed by sending the operation alone"],
